@@ -27,7 +27,7 @@ import YtkModel.HeapOverlay
 namespace Ytk.Heap
 
 /-- `c.AddValueAt(path, v)` on plain components -/
-def addValueAtH : Heap → Addr → List String → Addr → Option Heap
+def setAddValueAtH : Heap → Addr → List String → Addr → Option Heap
   | _, _, [], _ => none
   | h, c, [last], v => addValue h c last v
   | h, c, comp :: rest, v =>
@@ -35,12 +35,12 @@ def addValueAtH : Heap → Addr → List String → Addr → Option Heap
     | some (.cont kvs) =>
       let create : Option Heap :=
         match addContainer h c comp with
-        | some (h1, b) => addValueAtH h1 b rest v
+        | some (h1, b) => setAddValueAtH h1 b rest v
         | none => none
       match AMap.get? kvs comp with
       | some n =>
         match h.get? n with
-        | some (.cont _) => addValueAtH h n rest v
+        | some (.cont _) => setAddValueAtH h n rest v
         | _ => create
       | none => create
     | _ => none
@@ -93,11 +93,11 @@ def setOpH (merge : Bool) (comps : List String) (data : List (String × Node)) (
           match h1.get? dest with
           | some (.cont _) =>
             match mergeContainers .meld h1 dest c with
-            | some (h2, m) => (addValueAtH h2 root comps m).map fun h3 => (h3, c)
+            | some (h2, m) => (setAddValueAtH h2 root comps m).map fun h3 => (h3, c)
             | none => none
-          | _ => (addValueAtH h1 root comps c).map fun h2 => (h2, c)
-        | none => (addValueAtH h1 root comps c).map fun h2 => (h2, c)
-      else (addValueAtH h1 root comps c).map fun h2 => (h2, c)
+          | _ => (setAddValueAtH h1 root comps c).map fun h2 => (h2, c)
+        | none => (setAddValueAtH h1 root comps c).map fun h2 => (h2, c)
+      else (setAddValueAtH h1 root comps c).map fun h2 => (h2, c)
     | _ => none
 
 end Ytk.Heap
